@@ -99,6 +99,16 @@ Theorem C08_list_uploads_pages_complete : forall sorted max, usorted sorted -> F
 Proof. exact uploads_pages_complete. Qed.
 Print Assumptions C08_list_uploads_pages_complete.
 
+(* the page selection before repair 2fe630b is refuted by three uploads of one key listed one per page *)
+Theorem C08_old_page_selection_refuted :
+  let ups := [("a", "u1"); ("a", "u2"); ("a", "u3")] in
+  usorted ups /\
+  list_uploads_old ups "" "" 1 = Ok_ ([("a", "u1")], true, ("a", "u1")) /\
+  list_uploads_old ups "a" "u1" 1 = Ok_ ([("a", "u2")], true, ("a", "u2")) /\
+  list_uploads_old ups "a" "u2" 1 = Ok_ ([("a", "u2")], true, ("a", "u2")).
+Proof. exact old_page_selection_cycles. Qed.
+Print Assumptions C08_old_page_selection_refuted.
+
 Example C08_list_uploads_example :
   let ups := [("a", "u1"); ("a", "u2"); ("a", "u3"); ("b", "u0"); ("c/d", "u5")] in
   usorted ups /\ lmu_pages ups "" "" 1 6 = ups /\ lmu_pages ups "" "" 2 6 = ups /\
